@@ -54,6 +54,11 @@ func condFacts(cond ast.Expr) (pos, neg []string) {
 				}
 				return nil, []string{x + " != nil"}
 			}
+			// general (in)equality: x == y / x != y
+			if c.Op == token.NEQ {
+				return []string{x + " != " + y}, []string{x + " == " + y}
+			}
+			return []string{x + " == " + y}, []string{x + " != " + y}
 		case token.LSS, token.LEQ, token.GTR, token.GEQ:
 			x, y := exprKey(c.X), exprKey(c.Y)
 			var t, f string
